@@ -441,7 +441,7 @@ pub fn run(run: &Run) {
     tl.pre = vec![Action::Jump(498), Action::Open, Action::Seal(None), Action::Open, Action::Seal(None)];
     scs.push(tl);
     // mainnet across its activation height, with the grandfathered faucet (replayable) in the alphabet
-    let mut mn = sc("mainnet-across-830000", NetID::Mainnet, 0, base.clone(), if thorough { 9 } else { 7 });
+    let mut mn = sc("mainnet-across-830000", NetID::Mainnet, 0, base.clone(), if thorough { 6 } else { 5 });
     mn.pre = vec![Action::Jump(829_998)];
     scs.push(mn);
     scs.extend(genesis_scenarios(["custom02-genesis-sym-feepool-stake", "custom02-genesis-erg-fees-stakes", "custom02-genesis-huge-mel-feepool"], NetID::Custom02, &pools, if thorough { 6 } else { 4 }));
